@@ -1,11 +1,55 @@
-from pyvc.api import contract, LoopInv, Int, Bytes, ByteArray, ListOf, TupleOf, implies
-from specs.tlv import rest_frags, frags, enc_upto, Items
+import itertools
+import random
+
+from pyvc.api import contract, LoopInv, Int, Bytes, ByteArray, ListOf, TupleOf, implies, exists, forall
+from specs.tlv import rest_frags, frags, enc_upto, enc, Items
+
+LENS = [0, 1, 2, 254, 255, 256, 257, 509, 510, 511, 765, 766]
+
+
+def _val(n, seed=0):
+    return bytes((seed + 7 * i) % 256 for i in range(n))
+
+
+def item_lists():
+    for n in LENS:
+        for k in (0, 1, 6, 12, 13, 254, 255):
+            if k == 255 and n:
+                continue
+            yield [(k, _val(n, k))]
+    for a, b in itertools.product([0, 1, 255, 256, 510], repeat=2):
+        yield [(1, _val(a, 1)), (2, _val(b, 2))]
+        yield [(1, _val(a, 1)), (255, b""), (1, _val(b, 3))]
+    yield []
+    yield [(6, b"\x01"), (3, _val(384)), (2, _val(16))]
+    rnd = random.Random(15)
+    for _ in range(60):
+        out = []
+        for _ in range(rnd.randint(1, 5)):
+            k = rnd.choice([0, 1, 2, 3, 12, 13, 255, rnd.randint(0, 255)])
+            v = b"" if k == 255 else _val(rnd.choice(LENS + [rnd.randint(0, 2000)]), rnd.randint(0, 255))
+            if out and out[-1][0] == k:
+                out.append((255, b""))
+            out.append((k, v))
+        yield out
 
 
 @contract("aiohomekit.protocol.tlv:TLV.encode_list", prop="C15")
 class EncodeList:
     params = {"d": Items}
-    raises = {ValueError: True}
+
+    def invalid_item(d):
+        """ValueError only for a type outside 0..255 or a separator carrying data"""
+        return exists(0, len(d), lambda j: d[j][0] < 0 or d[j][0] > 255 or (d[j][0] == 255 and len(d[j][1]) > 0))
+
+    raises = {ValueError: invalid_item}
+
+    def corpus():
+        for items in item_lists():
+            yield {"d": items}
+        yield {"d": [(256, b"x")]}
+        yield {"d": [(1, b"x"), (255, b"x")]}
+        yield {"d": [(-1, b"")]}
 
     def post(d, result):
         return result == enc_upto(d, len(d))
@@ -27,3 +71,64 @@ class EncodeList:
         2: LoopInv(copy),
         3: LoopInv(copy),
     }
+
+
+from aiohomekit.protocol.tlv import TlvParseException
+from specs.tlv import dec_ok, dec_from, DItems, Ints
+
+
+def _expected(it):
+    """`expected` is None or a list of ints (any length)"""
+    if it.ctx.choose(["none", "list"]) == "none":
+        return None
+    return it.fresh(Ints, "arg_expected")
+
+
+@contract("aiohomekit.protocol.tlv:TLV.decode_bytearray", prop="C15")
+class DecodeBytearray:
+    params = {"ba": ByteArray, "expected": _expected}
+
+    def malformed(ba, expected):
+        return not dec_ok(ba, [] if expected is None else expected)
+
+    raises = {TlvParseException: malformed}
+
+    def total(ba, expected):
+        return dec_ok(ba, [] if expected is None else expected)
+
+    def value(ba, expected, result):
+        return result == dec_from([], ba, [] if expected is None else expected)
+
+    def frame(ba, ba__post):
+        return ba__post == ba
+
+    ensures = [total, value, frame]
+
+    def remaining(ba, expected, result, tail):
+        return dec_from(result, tail, [] if expected is None else expected) == dec_from([], ba, [] if expected is None else expected)
+
+    def ok(ba, expected, tail):
+        return dec_ok(tail, [] if expected is None else expected) == dec_ok(ba, [] if expected is None else expected)
+
+    loops = {0: LoopInv([remaining, ok], vars={"result": DItems})}
+
+    def corpus():
+        from specs.tlv import enc
+
+        streams = []
+        for items in item_lists():
+            streams.append(bytes(enc(items)))
+        rnd = random.Random(16)
+        for s_ in list(streams):
+            if len(s_) > 2:
+                streams.append(s_[: rnd.randint(1, len(s_) - 1)])
+                streams.append(s_[:1])
+                streams.append(s_[:2])
+                streams.append(s_ + s_[:1])
+        for n in range(0, 5):
+            for bs in itertools.product([0, 1, 2, 255], repeat=n):
+                streams.append(bytes(bs))
+        for s_ in streams:
+            yield {"ba": bytearray(s_), "expected": None}
+            yield {"ba": bytearray(s_), "expected": [1, 2]}
+            yield {"ba": bytearray(s_), "expected": []}
